@@ -599,3 +599,84 @@ TAP = Unit('C12', TP + 'temparray:TemperatureArray.profile', _ta_params,
            doc='array profile without pressure points: the array itself when it has one entry per layer, otherwise interpolated onto the '
                'layers (np.linspace, np.interp: assumed models) and inside the range of the given temperatures; the variant with pressure '
                'points (scipy interp1d object built by the constructor) stays a bounded item')
+
+
+# ------------------------------------------------------------------ TemperatureArray with pressure points: what the interpolator is built from
+def _tai_params(c):
+    K = c.int('K')
+    rev = c.choice('reverse')
+    return dict(self=ObjSpec('TemperatureArray', _tp_profile=None, _p_profile=None, _func=None),
+                tp_array=c.array('A', (K,)), p_points=c.array('Pp', (K,)), reverse=rev)
+
+
+def _h_interp1d_rec(ex, st, args, kwargs, node):
+    """scipy.interpolate.interp1d: recorded with the CONTENT of its arguments; the object it returns is opaque"""
+    from pyvc import lib
+    from pyvc.engine import AbsObj
+    fv = kwargs.get('fill_value')
+    st.trace.append(('ev', ('interp1d', lib.arr(ex, st, args[0]), lib.arr(ex, st, args[1]), kwargs.get('bounds_error'),
+                            fv if isinstance(fv, tuple) else repr(fv), sorted(k for k in kwargs))))
+    return AbsObj('Interp1d', 0, {})
+
+
+def _tai_post(c, v0, v1, r):
+    A, Pp = v0.tp_array, v0.p_points
+    K = c.Len(A)
+    rev = (c.fixed if c.mode != 'conc' else c.values)['reverse']
+    src = (lambda i: K - 1 - i) if rev else (lambda i: i)
+    tp, pp = v1.self._tp_profile, v1.self._p_profile
+    d = {'stored_arrays_are_the_given_ones_in_the_requested_order': c.And(
+        c.Len(tp) == K, c.Len(pp) == K, c.Forall(0, K, lambda i: c.And(tp[i] == A[src(i)], pp[i] == Pp[src(i)])))}
+    ev = [e for e in (c.trace or []) if e[0] == 'interp1d']
+    d['one_interpolator'] = len(ev) == 1
+    if len(ev) != 1:
+        return d
+    if c.mode == 'conc':
+        _, how = ev[0]
+        d['interpolates_T_over_log10_P_clamped_to_the_end_temperatures'] = how == 'log10(p), tp, no bounds error, fill (tp[-1], tp[0])'
+        return d
+    _, X, Y, be, fv, keys = ev[0]
+    d['interpolates_T_over_log10_P_clamped_to_the_end_temperatures'] = c.And(
+        X.shape[0] == K, Y.shape[0] == K, c.Forall(0, K, lambda i: z3.And(X.elem((i,)) == c.log10(pp[i]), Y.elem((i,)) == tp[i])),
+        be is False, isinstance(fv, tuple) and len(fv) == 2 and fv[0] == tp[K - 1] and fv[1] == tp[0], keys == ['bounds_error', 'fill_value'])
+    return d
+
+
+def _tai_native(c, p):
+    import numpy as np
+    import taurex.data.profiles.temperature.temparray as mod
+    trace = []
+    real = mod.interp1d
+
+    def rec(x, y, **kw):
+        o_ = holder['o']
+        fv = kw.get('fill_value')
+        ok = np.array_equal(x, np.log10(o_._p_profile)) and np.array_equal(y, o_._tp_profile) and kw.get('bounds_error') is False and \
+            isinstance(fv, tuple) and len(fv) == 2 and fv[0] == o_._tp_profile[-1] and fv[1] == o_._tp_profile[0] and sorted(kw) == ['bounds_error', 'fill_value']
+        trace.append(('interp1d', 'log10(p), tp, no bounds error, fill (tp[-1], tp[0])' if ok else 'other arguments: %r' % (kw,)))
+        return real(x, y, **kw)
+    holder = {}
+
+    class _T(mod.TemperatureArray):
+        def __setattr__(self, k, v):
+            holder['o'] = self
+            object.__setattr__(self, k, v)
+    mod.interp1d = rec
+    try:
+        o = _T(tp_array=list(p['tp_array']), p_points=list(p['p_points']), reverse=p['reverse'])
+    finally:
+        mod.interp1d = real
+    return None, dict(p, self=dict(p['self'], _tp_profile=np.asarray(o._tp_profile, dtype=float), _p_profile=np.asarray(o._p_profile, dtype=float)), __trace__=trace)
+
+
+TAI = Unit('C12', TP + 'temparray:TemperatureArray.__init__', _tai_params, pre=lambda c, v: {'points': c.And(c.Len(v.tp_array) >= 2, c.Len(v.p_points) == c.Len(v.tp_array)),
+                                                                                         'positive': c.Forall(0, c.Len(v.p_points), lambda i: v.p_points[i] > 0)},
+           post=_tai_post, cases=[{'reverse': False}, {'reverse': True}], bounds=[dict(K=2)],
+           abstract={'call:interp1d': _h_interp1d_rec, 'call:__init__': lambda ex, st, args, kwargs, node: None},
+           frame_attrs=[('self', a) for a in ('_tp_profile', '_p_profile', '_func')], native=_tai_native, safety=('index', 'domain'),
+           gen=lambda rng: (lambda K: dict(K=K, reverse=rng.random() < 0.5, A=[rng.uniform(300, 3000) for _ in range(K)],
+                                           Pp=sorted((10 ** rng.uniform(-3, 6) for _ in range(K)), reverse=True)))(rng.randint(2, 6)),
+           short='TemperatureArray.__init__',
+           doc='with pressure points: the interpolator is scipy interp1d of the stored temperatures over log10 of the stored pressures, no '
+               'bounds error, CLAMPED to the end temperatures outside the tabulated range (so the profile cannot leave the range of the '
+               'control temperatures); interp1d itself abstract (recorded with the content of its arguments)')
